@@ -101,22 +101,23 @@ class Instrument:
         orig_filter = self.saved[3]
         state = {"in_from": 0}
 
-        def from_regex_matches(cls, regex_matches):
+        # (signature-agnostic: a refactoring may add parameters to these methods)
+        def from_regex_matches(cls, regex_matches, *a, **k):
             log.append(("analysis", len(regex_matches)))
             state["in_from"] += 1
             try:
-                return orig_from(cls, regex_matches)
+                return orig_from(cls, regex_matches, *a, **k)
             finally:
                 state["in_from"] -= 1
 
-        def apply_rule(self_, ts, rule, rule_name, match):
+        def apply_rule(self_, *a, **k):
             log.append(("apply", id(self_)))
-            return orig_apply(self_, ts, rule, rule_name, match)
+            return orig_apply(self_, *a, **k)
 
-        def _filter_rules(self_, rules):
+        def _filter_rules(self_, *a, **k):
             if not state["in_from"]:
                 log.append(("analysis", len(self_.prod)))
-            return orig_filter(self_, rules)
+            return orig_filter(self_, *a, **k)
 
         PP.from_regex_matches = classmethod(from_regex_matches)
         PP.apply_rule = apply_rule
